@@ -78,6 +78,17 @@ def handle : List String → String
     match prep? d, (if ops == "-" then some [] else (ops.splitOn ",").mapM parseOp?) with
     | some p, some os => "|".intercalate ((quoteSeq p [] os).map showQ)
     | _, _ => "bad-op"
+  | ["normalize", d, s] =>
+    match prep? d, parseCps? s with
+    | some p, some st =>
+      match normalizeName p st with
+      | some (n, f) => showCps n ++ " " ++ (match f with | none => "N" | some true => "T" | some false => "F")
+      | none => "indexerror"
+    | _, _ => "bad-op"
+  | ["denormalize", d, f, s] =>
+    match prep? d, force? f, parseCps? s with
+    | some p, some ff, some st => showQ (denormalizeName p ff st)
+    | _, _, _ => "bad-op"
   | ["escape", d, s] =>
     match prep? d, parseCps? s with
     | some p, some st => showCps (escape p st)
